@@ -124,7 +124,7 @@ class ClauseRunner(object):
             except Exception:
                 pass
         old = signal.signal(signal.SIGALRM, _alarm)
-        signal.alarm(self.clause.watchdog)
+        signal.alarm(int(os.environ.get("VERIF_WATCHDOG", self.clause.watchdog)))      # the override is a debugging aid (find slow cases)
         t_start = time.time()
         try:
             info = self.clause.run(case) or {}
